@@ -29,10 +29,11 @@ Record dproc := {
   d_state : Device.state;
   d_todo : list ev;          (* events not yet taken from the input channel *)
   d_pend : list msg;         (* messages of the current event (or of the clean-up) not yet handed over *)
-  d_closed : bool }.         (* the clean-up has been computed *)
+  d_closed : bool;           (* the clean-up has been computed *)
+  d_done : list ev }.        (* ghost: the events taken so far (no transition reads it) *)
 
 Definition dproc_init (c : config) (h : list ev) : dproc :=
-  {| d_cfg := c; d_state := Device.init c; d_todo := h; d_pend := []; d_closed := false |}.
+  {| d_cfg := c; d_state := Device.init c; d_todo := h; d_pend := []; d_closed := false; d_done := [] |}.
 
 Record estate := { e_devs : list dproc; e_relay : @ostate msg }.
 
@@ -57,7 +58,7 @@ Definition estep (port_cap out_cap : nat) (s : estate) (l : elabel) : option est
           match d_pend d, d_todo d with
           | [], e :: r =>
               let '(st, o) := Device.step (d_cfg d) (d_state d) e in
-              Some {| e_devs := set_nth (e_devs s) k {| d_cfg := d_cfg d; d_state := st; d_todo := r; d_pend := midi o; d_closed := d_closed d |};
+              Some {| e_devs := set_nth (e_devs s) k {| d_cfg := d_cfg d; d_state := st; d_todo := r; d_pend := midi o; d_closed := d_closed d; d_done := d_done d ++ [e] |};
                       e_relay := e_relay s |}
           | _, _ => None
           end
@@ -69,7 +70,7 @@ Definition estep (port_cap out_cap : nat) (s : estate) (l : elabel) : option est
           match d_pend d, d_todo d, d_closed d with
           | [], [], false =>
               let '(st, ms) := Device.cleanup (d_cfg d) (d_state d) in
-              Some {| e_devs := set_nth (e_devs s) k {| d_cfg := d_cfg d; d_state := st; d_todo := []; d_pend := ms; d_closed := true |};
+              Some {| e_devs := set_nth (e_devs s) k {| d_cfg := d_cfg d; d_state := st; d_todo := []; d_pend := ms; d_closed := true; d_done := d_done d |};
                       e_relay := e_relay s |}
           | _, _, _ => None
           end
@@ -81,7 +82,7 @@ Definition estep (port_cap out_cap : nat) (s : estate) (l : elabel) : option est
           match d_pend d with
           | x :: p =>
               match ostep port_cap out_cap (e_relay s) (Enter (k, x)) with
-              | Some r => Some {| e_devs := set_nth (e_devs s) k {| d_cfg := d_cfg d; d_state := d_state d; d_todo := d_todo d; d_pend := p; d_closed := d_closed d |};
+              | Some r => Some {| e_devs := set_nth (e_devs s) k {| d_cfg := d_cfg d; d_state := d_state d; d_todo := d_todo d; d_pend := p; d_closed := d_closed d; d_done := d_done d |};
                                   e_relay := r |}
               | None => None
               end
@@ -109,6 +110,10 @@ Definition remaining (d : dproc) : list msg :=
 (* what the port has received so far from device k / what is in flight for it inside the relay *)
 Definition at_port (s : estate) (k : nat) : list msg := proj k (delivered (o_pipe (e_relay s))).
 Definition in_relay (s : estate) (k : nat) : list msg := proj k (in_flight (o_pipe (e_relay s))).
+
+(* device k is at an event boundary: not yet disconnected, nothing of the current event left to hand over, nothing of it in flight *)
+Definition at_boundary (s : estate) (k : nat) (d : dproc) : Prop :=
+  d_closed d = false /\ d_pend d = [] /\ in_relay s k = [].
 
 (* nothing is left to do anywhere *)
 Definition quiescent (s : estate) : Prop :=
